@@ -61,6 +61,27 @@ def withdrawn_undeclared_family(n, profiles, cfgs, seats=None):
                     yield with_cfgs(ecase.make(n, s, ballots, wd=wd, ud=ud), cfgs)
 
 
+def corner_corpus(cfgs, seats=(2, 3)):
+    """profiles found once by tools/find_corners.py (a strided offline sweep over 4-candidate, 4-5 ballot-type profiles) that reach rare
+    arithmetic events of the 4/5-digit statutory rules which no small exhaustive space contains: a ballot re-valued to exactly zero by a
+    positive surplus, a surplus of a few units, a ballot re-valued three times, Scottish ties decided by a prior stage.  The committed
+    list mc/corpus.json is enumerated completely (x seats x the given configurations) like any other family."""
+    import json
+    import os
+    path = os.path.join(os.path.dirname(os.path.abspath(__file__)), 'corpus.json')
+    if not os.path.exists(path):
+        return
+    seen = set()
+    for o in json.load(open(path)):
+        c = o['case']
+        key = json.dumps(c['b'])
+        if key in seen:
+            continue
+        seen.add(key)
+        for s in seats:
+            yield with_cfgs(ecase.make(c['n'], s, [(m, tuple(r)) for m, r in c['b']]), cfgs)
+
+
 _FILES = {}
 
 
@@ -105,6 +126,7 @@ def standard(tier, snapshots_cost=1.0):
              W(4,2,3,{1,2}) x s in {2,3} x 11 rules + wigm defeat_batch=zero (4 candidates: qpq restarts, 2-step transfers);
              five-candidate bullets+pair profiles BPS(5) x s in {3,4} for the batch rules (a winner elected by transfer next to sure losers);
              the repository's own test ballot files (test/blt/**.blt: real elections of 5-13 candidates; quick: the small ones + M135 + one Glasgow ward);
+             a committed corpus of corner profiles (mc/corpus.json: zero-truncation, tiny surplus, triple re-valuation, prior-stage ties);
              bullet piles BU(4) of sizes {0,1,2,3,5,8,13} x s in {1,2,3} (exhausting surpluses, tied tails)
     thorough adds U(3,6..7), weighted W spaces with 4 and 5 candidates, U(4,4) for five fast rules,
              equal-rank profiles Q(3,<=4) for meek/warren"""
@@ -122,6 +144,7 @@ def standard(tier, snapshots_cost=1.0):
     yield from seats_ties(4, spaces.BU(4), seats=(1, 2, 3), ties='id', cfgs=D)
     yield from seats_ties(3, spaces.U(3, 5, 5), ties='id' if tier == 'quick' else 'idrev', cfgs=D)
     yield from repo_files(D + menus[::9], max_bytes=4000 if tier == 'quick' else 10 ** 7)
+    yield from corner_corpus(D)
     if tier == 'thorough':
         mw = [{'rule': 'meek'}, {'rule': 'warren'}] + configs.meek_menu(full=False)
         yield from seats_ties(3, spaces.Q(3, 0, 4), ties='id', cfgs=mw)
